@@ -41,6 +41,47 @@ def serde_rules(ctx):
     return m.group(1), re.findall(r'\("([^"]+)",', blk.group(1)) if blk else []
 
 
+FOLDING = ('eq_ignore_ascii_case', 'to_lowercase', 'to_uppercase', 'to_ascii_lowercase', 'to_ascii_uppercase', 'make_ascii_lowercase', 'make_ascii_uppercase',
+           'trim', 'trim_start', 'trim_end', 'trim_matches', 'trim_start_matches', 'trim_end_matches', 'starts_with', 'ends_with', 'strip_prefix', 'strip_suffix', 'replace', 'to_case', 'is_case')
+
+
+def e4(ctx, rep):
+    """E4 (rule names are matched exactly): serde knows exactly eight spellings; "CamelCase", "snake_Case" or "uppercase " are
+    unknown rules and leave names unchanged.  Between the attribute and the dispatch the rule string is therefore never
+    case-folded, trimmed or matched by prefix: no such operation is applied to the looked-up `rename_all` value in the look-up
+    function, nor to the rule parameter of the renaming routine."""
+    n = 0
+    for fname, which in (('serde_rename_all', None), ('rename_all_to_case', 1)):
+        f0 = ctx.fn(fname, file='parser.rs')
+        f = ctx.x(f0)
+        site = {'file': f['file'], 'line': f['line']}
+        rule_p = f['params'][which]['name'] if which is not None else None
+
+        def about_rule(v):
+            for x in vt.walk(v):
+                if not isinstance(x, dict):
+                    continue
+                if rule_p is not None and x.get('k') == 'atom' and x.get('root') == rule_p:
+                    return True
+                if rule_p is None and x.get('k') == 'call' and x.get('f') == 'get_name_value_meta_items':
+                    return True
+                if rule_p is None and x.get('k') == 'lit' and x.get('v') == 'rename_all':
+                    return True
+            return False
+        bad = []
+        for c in f['calls']:
+            if c.get('f') not in FOLDING:
+                continue
+            operands = ([c['recv']] if c.get('recv') is not None else []) + list(c.get('args', []))
+            if any(about_rule(o) for o in operands):
+                bad.append(c)
+        n += 1
+        rep.check(not bad, 'E4', f'{fname}:rule-name-exact', 'the rule string is neither folded, trimmed nor prefix-matched',
+                  (f"{f['qual']} applies `{bad[0]['f']}` to the rename_all rule (`{vt.show(bad[0].get('recv') or bad[0]['args'][0])[:60]}`): a value that is not one of serde's eight spellings (\"CamelCase\", \"snake_Case\", \"Kebab-Case\") "
+                   'is treated as the rule it resembles and renames fields/variants, where an unknown rule must leave names unchanged') if bad else '', {'file': f['file'], 'line': (bad[0].get('line') if bad else f['line'])})
+    rep.analysed['E4:functions scanned'] = n
+
+
 def run(ctx, rep):
     rep.explanation = ('Only necessary structural conditions are decided: the rule-name dispatch table against serde_derive\'s RENAME_RULES, identity for absent/unknown '
                        'rules, and absence of Unicode case-mapping functions in the code reachable from the renaming routine (serde is ASCII-only).')
@@ -52,6 +93,7 @@ def run(ctx, rep):
     # (shared with C01 KA / C02 VA: the look-ups are identified by the argument name they search for)
     from .. import parser_rules as pr
     rep.section(pr.all_attrs_rule, ctx, rep, 'E0', ('serde_rename_all',), 1, keys=('rename_all',))
+    rep.section(e4, ctx, rep)
     ver, rules = serde_rules(ctx)
     rep.check(len(rules) == 8, 'E1', 'serde:rule-table', f'serde_derive {ver}: {rules}', f'could not read 8 rules from serde_derive {ver}', None)
     f = ctx.fn('rename_all_to_case', file='parser.rs')
